@@ -126,11 +126,16 @@ fn go_range(lmax: usize, prefix: usize, script: &[u16], ends: u8, wit: fn(&Model
 }
 
 fn go_iter(lmax: usize, prefix: usize, script: &[u16], ends: u8, wit: fn(&Model)) {
+    go_iter_n(lmax, prefix, script, ends, wit, 0)
+}
+
+/// `nbuf`: concrete chunk size of buffered iterators (the wrapper allocates `chunk_size` slots)
+fn go_iter_n(lmax: usize, prefix: usize, script: &[u16], ends: u8, wit: fn(&Model), nbuf: usize) {
     let len = any_len(lmax);
     let hint: u8 = kani::any();
     kani::assume(hint < 3);
     let it = Probe::new(len, hint).into_con_iter();
-    let m = run(it, info(len, hint == 0, ends), prefix, script, |v: usize| v);
+    let m = run(it, KindInfo { nbuf, ..info(len, hint == 0, ends) }, prefix, script, |v: usize| v);
     wit(&m);
 }
 
@@ -289,11 +294,19 @@ fn iter_chunk() {
 }
 
 // @verif family=SEQ quick=C03,C04,C05,C10,C11,C09 thorough=C01,C02,C17 timeout=900
-// @bounds kind=ConIterOfIter<usize,Probe> len<=3, all size hints; prefix<=3 next(); buffered_iter(n<=len+2) 1-2 pulls partly consumed (stale buffer slots); one of single/len query; end in {drop, into_seq_iter all/partly}
+// @bounds kind=ConIterOfIter<usize,Probe> len<=3, all size hints; prefix<=3 next(); buffered_iter(2) 1-2 pulls partly consumed (stale buffer slots); one of single/len query; end in {drop, into_seq_iter all/partly}
 #[kani::proof]
 #[kani::unwind(7)]
 fn iter_buf() {
-    go_iter(3, 3, S_BUF, E_ALL, wit_buf);
+    go_iter_n(3, 3, S_BUF, E_ALL, wit_buf, 2);
+}
+
+// @verif family=SEQ thorough=C03,C04,C05,C10,C11 timeout=1200
+// @bounds kind=ConIterOfIter<usize,Probe> len<=3, all size hints; prefix<=3 next(); buffered_iter(3) 1-2 pulls partly consumed; single/len query; end in {drop, into_seq_iter all/partly}
+#[kani::proof]
+#[kani::unwind(7)]
+fn iter_buf3() {
+    go_iter_n(3, 3, S_BUF, E_ALL, wit_buf, 3);
 }
 
 // @verif family=SEQ quick=C06,C09 thorough=C10,C11 timeout=900
@@ -309,7 +322,7 @@ fn iter_skip() {
 #[kani::proof]
 #[kani::unwind(7)]
 fn iter_skip_any() {
-    go_iter(3, 3, S_SKIP, E_ALL, wit_skip);
+    go_iter_n(3, 3, S_SKIP, E_ALL, wit_skip, 2);
 }
 
 // @verif family=SEQ quick=C12 thorough=C01,C02 timeout=900
